@@ -1634,9 +1634,9 @@ outer4:
 		}
 		items, _ := cborMapItems(blob)
 		// very large blobs: every position of the first and last 3000 bytes, every 97th position in between (stated in the bound)
-		stride := func(p int) bool { return len(blob) <= 40000 || p < 3000 || p >= len(blob)-3000 || p%97 == 0 }
+		stride := func(p int) bool { return len(blob) <= 80000 || p < 3000 || p >= len(blob)-3000 || p%97 == 0 }
 		bound := fmt.Sprintf("%d-byte %s blob: every position x 255 substitutions, every truncation length 0..%d, 256 one-byte extensions", len(blob), imp, len(blob)-1)
-		if len(blob) > 40000 {
+		if len(blob) > 80000 {
 			bound = fmt.Sprintf("%d-byte %s blob: positions 0..2999, the last 3000 and every 97th in between x 255 substitutions; every truncation length; 256 one-byte extensions", len(blob), imp)
 		}
 		c.SecBound(sec, bound)
